@@ -28,6 +28,7 @@ type Config struct {
 	InitPkgs     map[string]bool // packages whose init() is executed
 	Known        map[string]bool // ids of known findings that harnesses may tag
 	Replay       map[string]uint64
+	Params       map[string]int64
 	Deadline     time.Time
 }
 
